@@ -555,6 +555,10 @@ def run(ctx):
     n = C20.r4(ctx, 'R15.4', ('too_far',))
     n += C08.radius_rule(ctx, 'R15.4')
     ctx.floor('R15.4', n, 4)
+    import geomlib
+    ctx.rule('R15.6', 'the polygon a box contributes (minuend and subtrahend) is its rectangle rotated by +angle about its '
+                      'centre, and area() in the share denominator is that rectangle\'s area (exact formulas, shared with C08 / C19)')
+    ctx.evaluated('R15.6', geomlib.polygon_rule(ctx, 'R15.6') + geomlib.measures_rule(ctx, 'R15.6'), 3)
     ctx.rule('R15.5', 'VisualSORT wiring: one list of all observation boxes of the scene feeds regions and shares; '
              'share[i] goes to observation i')
     ctx.floor('R15.5', wiring_rule(ctx, 'R15.5'), 6)
